@@ -206,7 +206,12 @@ theorem run_pframe (ρ : List FunDef) : ∀ (f : Nat) (j : Job) (s : St), PFrame
         refine withFnCall_pframe _ _ (fun t0 _ => ?_)
         refine bnd_pframe _ _ _ (ih _ _) (fun r t => ?_)
         refine bnd_pframe _ _ _ (ih _ _) (fun l t2 => ?_)
-        have hclone : PFrame t2 (cloneIfNecessary t2 r).2 := pframe_clone _ _
+        have htag : PFrame t2 (tagParamAlias t2 r) := by
+          unfold tagParamAlias
+          split
+          · exact PFrame.of_eq rfl rfl
+          · exact PFrame.refl t2
+        have hclone : PFrame t2 (cloneIfNecessary (tagParamAlias t2 r) r).2 := htag.trans (pframe_clone _ _)
         have hsv : ∀ v, PFrame t2 (t2.setVal l v) := fun v => PFrame.of_eq rfl rfl
         have hsc : ∀ c, PFrame t2 (t2.setCell l c) := fun c => PFrame.of_eq rfl rfl
         split
@@ -224,7 +229,7 @@ theorem run_pframe (ρ : List FunDef) : ∀ (f : Nat) (j : Job) (s : St), PFrame
               · exact hsv _
               · split
                 · exact hsc _
-                · generalize cloneIfNecessary t2 r = rc at hclone ⊢
+                · generalize cloneIfNecessary (tagParamAlias t2 r) r = rc at hclone ⊢
                   obtain ⟨oc, t3⟩ := rc
                   cases oc <;> (try simp only []) <;> first | exact hclone | exact hclone.trans (PFrame.of_eq rfl rfl)
               · exact hsv _
